@@ -164,6 +164,7 @@ class SimFS:
         self.killed = False
         self.kill_keep = 0.0
         self.escapes = []
+        self.encoding = "utf-8"     # the simulated locale's default text encoding
         self.clock = None           # the op's SimClock (file timestamps come from the simulated clock)
         self.disk_time = 1.7e9      # simulated time of the last timestamp handed out
 
@@ -232,6 +233,10 @@ class SimFS:
         flt = self._fault("open", rel, mode)
         if flt is not None:
             raise OSError(ERRNOS[flt["errno"]], os.strerror(ERRNOS[flt["errno"]]), os.fspath(file))
+        if "b" not in mode and len(a) < 2 and "encoding" not in kw:
+            # text mode without an explicit encoding: the locale decides (the harness itself runs in
+            # UTF-8 mode, so the simulated locale is applied here)
+            kw["encoding"] = self.encoding
         real = _REAL_OPEN(file, mode, *a, **kw)
         sf = _SimFile(self, real, rel, mode)
         self.open_files.add(sf)
@@ -286,9 +291,26 @@ class SimFS:
         timestamp granularity of the previous write (coarse mtime / stopped clock)."""
         p = os.path.join(self.root, rel)
         os.makedirs(os.path.dirname(p), exist_ok=True)
-        with _REAL_OPEN(p, "w", encoding="utf-8", newline="") as f:
-            f.write(text)
+        with _REAL_OPEN(p, "w", encoding=self.encoding, newline="") as f:
+            f.write(text)       # the client's editor saves in the locale's encoding
         self.stamp(rel, advance)
+
+    def write_bytes(self, rel, data, advance=True):
+        p = os.path.join(self.root, rel)
+        os.makedirs(os.path.dirname(p), exist_ok=True)
+        with _REAL_OPEN(p, "wb") as f:
+            f.write(data)
+        self.stamp(rel, advance)
+
+    def encodable(self, text):
+        try:
+            text.encode(self.encoding)
+            return True
+        except UnicodeEncodeError:
+            return False
+
+    def read_text(self, rel):
+        return self.read_bytes(rel).decode(self.encoding)
 
     def read_bytes(self, rel):
         with _REAL_OPEN(os.path.join(self.root, rel), "rb") as f:
